@@ -21,6 +21,7 @@ DECIDED = [
     "ORDER-1 at every write-mode open() of the package the content is computed before the file is opened",
     "ORDER-6 in ODMLWriter.write_file nothing that can raise (not even warnings.warn) runs after a file was written",
     "RANK-0 ValidationError.is_error compares the rank with the error label",
+    "ACC-1 the duplicate-id error rule threads one id map through the whole traversal (shared with C08)",
 ]
 NOT_DECIDED = ["I/O faults of write() itself (disk full, permission)", "which documents the validation rules flag (C08)"]
 
@@ -184,6 +185,11 @@ def run(prog, rep):
                   "%s(...) runs after the file was written; if it raises, save fails although the file was created/overwritten"
                   % (bad[1] if bad else ""), where(wf, bad[0].ast) if bad else wf.where,
                   witness="warnings turned into errors (python -W error) + a document with warnings only")
+
+    # ----------------------------------------------------------------- ACC-1 (the duplicate-id error rule finds every duplicate)
+    from .. import analysis
+    from .c08 import acc1_rule
+    acc1_rule(prog, rep, analysis.get(prog).s)
 
     # ---------------------------------------------------------------- RANK-0
     rep.rule("RANK-0", "ValidationError.is_error is `self.rank == LABEL_ERROR`")
